@@ -225,10 +225,10 @@ def c1(repo: Repo) -> RuleResult:
         calls = {"get_option_as_int_or_raise": 0}
         vals = {"self._is_missing": 0}
         if var.endswith("()"):
-            nm = var[:-2].split(".")[-1]
+            nm = var[:-2]  # receiver-qualified: only the node's own size is fixed, not its children's
             calls[nm] = v
-            if nm == "nbits":
-                calls["nbytes"] = (v + 7) // 8
+            if nm.endswith(".nbits"):
+                calls[nm[: -len("nbits")] + "nbytes"] = (v + 7) // 8
         else:
             vals[var] = v
         return by_name(vals, calls)
@@ -265,9 +265,22 @@ def c1(repo: Repo) -> RuleResult:
                         for x in k_[1:]:
                             if hasattr(x, "terms"):
                                 names |= {(a_[1] if a_[0] == "var" else a_[1] + "()") for a_ in _atoms_of(x) if a_[0] in ("var", "mcall", "call")}
-            key = var.replace("self.", "").replace("()", "")
-            if names and not any(key in n_ for n_ in names) and any(n_.rstrip("()") in ("nbytes", "nbits", "cap", "number", "value") or "nbytes" in n_ for n_ in names):
-                other = sorted(names)[0]
+            exact = False
+            compared = []
+            for p_ in paths:
+                if p_.done == "raise" and any(cls in e.name for e in p_.effects if e.kind == "raise"):
+                    for k_, _t in p_.guards:
+                        if k_[0] == "cmp":
+                            txt_ = _show(k_[2])
+                            compared.append(txt_)
+                            if var in txt_.replace("self.nbits()", "self.nbits()") and (var if not var.endswith("()") else var) in txt_:
+                                # the quantity itself (not a child's size) takes part in the comparison
+                                import re as _re
+
+                                if _re.search(r"(?<![\w.$])" + _re.escape(var), txt_):
+                                    exact = True
+            if compared and not exact:
+                other = compared[-1]
                 res.bad(Finding("C1", fi.rel, fi.node.lineno, qual, undec, f"the documented limit on `{var}` is applied to `{other}` instead", witness=example + " (e.g. an extensible message whose fields alone fit but whose 16-bit prefix pushes it over the limit)", tag=f"{cls}:quantity"))
             else:
                 res.unsure(f"C1: {qual}: `raise {cls}` is not decided by {var} alone ({undec})")
@@ -691,18 +704,39 @@ def a7(repo: Repo) -> RuleResult:
     if len(positive) != 1 or src_of(positive[0].value) not in ("getattr(self, '__frozen__', False)", "self.is_frozen()", "self.__frozen__"):
         res.bad(Finding("A7", AST, cond.lineno, "cache_if_frozen_condition", "", "the cache condition is not `the node is frozen`", witness="duplicate field numbers accepted", tag="cache_if_frozen_condition"))
     cc = m.func("bitproto/utils.py", "conditional_cache").node
-    txt = src_of(cc)
     res.inst(part="condition", where="conditional_cache")
-    ok = False
-    for n in ast.walk(cc):
-        if isinstance(n, ast.If) and "condition(user_function, args, kwargs)" in src_of(n.test):
-            neg = isinstance(n.test, ast.UnaryOp)
-            direct = "return user_function(*args, **kwargs)"
-            body = " ".join(src_of(s) for s in n.body)
-            if (neg and direct in body) or ((not neg) and "cache_decorated_function(*args, **kwargs)" in body):
-                ok = True
-    if not ok:
-        res.bad(Finding("A7", "compiler/bitproto/utils.py", cc.lineno, "conditional_cache", "", "the wrapped function is not executed directly while the condition is false", tag="conditional_cache"))
+    try:
+        from .normal import show as _sh
+        from .pyflow import PyFlow
+
+        inner = [f_ for f_ in ast.walk(cc) if isinstance(f_, ast.FunctionDef) and f_ is not cc and any(isinstance(c_, ast.Call) and isinstance(c_.func, ast.Name) and c_.func.id == "condition" for c_ in ast.walk(f_)) and not any(isinstance(g_, ast.FunctionDef) and g_ is not f_ and any(isinstance(c_, ast.Call) and isinstance(c_.func, ast.Name) and c_.func.id == "condition" for c_ in ast.walk(g_)) for g_ in ast.walk(f_))]
+        cached_names = set()
+        user = None
+        for f_ in ast.walk(cc):
+            if isinstance(f_, ast.FunctionDef) and f_ is not cc and user is None and f_.args.args and any(g_ in inner for g_ in ast.walk(f_) if g_ is not f_):
+                user = f_.args.args[0].arg
+        for a_ in ast.walk(cc):
+            if isinstance(a_, ast.Assign) and any(isinstance(c_, ast.Call) and isinstance(c_.func, ast.Name) and c_.func.id in ("cache", "lru_cache") for c_ in ast.walk(a_.value)):
+                cached_names |= {t_.id for t_ in a_.targets if isinstance(t_, ast.Name)}
+        ok = bool(inner) and user is not None
+        why = ""
+        if ok:
+            for p_ in PyFlow(funcs={}, havoc_on=(), pure=("condition",)).run(inner[0]):
+                cond_t = None
+                for k_, t_ in p_.guards:
+                    if k_[0] == "truthy" and _sh(k_[1]).startswith("condition("):
+                        cond_t = t_
+                calls_ = [e.name for e in p_.effects if e.kind == "call" and e.name != "condition"]
+                if cond_t is False and calls_ != [user]:
+                    ok, why = False, f"while the condition is false the wrapper calls {calls_}"
+                if cond_t is True and not (len(calls_) == 1 and calls_[0] in cached_names):
+                    ok, why = False, f"while the condition is true the wrapper calls {calls_}"
+                if cond_t is None and calls_:
+                    ok, why = False, "a call is not selected by the condition"
+        if not ok:
+            res.bad(Finding("A7", "compiler/bitproto/utils.py", cc.lineno, "conditional_cache", why, "the wrapped function is not executed directly while the condition is false" + (f" ({why})" if why else ""), tag="conditional_cache"))
+    except Inconclusive as e:
+        res.unsure(f"A7: conditional_cache: {e}")
     # memoised results are shared objects: no caller may mutate them in place
     MUT = {"append", "extend", "insert", "pop", "remove", "clear", "update", "setdefault", "popitem", "add", "discard", "sort", "reverse"}
     memo: Set[str] = set()  # method names whose result is the cache's own object
